@@ -688,6 +688,8 @@ func (vm *VM) run() (Addr, bool) {
 			case k == reflect.String:
 			case k == reflect.Func:
 			case k == reflect.Interface:
+			case k == reflect.Slice || k == reflect.Map || k == reflect.Pointer || k == reflect.Chan:
+				// Copied by setFromReflectValue.
 			default:
 				v2 := reflect.New(v.Type()).Elem()
 				v2.Set(v)
@@ -1193,6 +1195,13 @@ func (vm *VM) run() (Addr, bool) {
 				if k := rv.Kind(); k == reflect.Array || k == reflect.Struct {
 					newRv := reflect.New(rv.Type()).Elem()
 					newRv.Set(reflect.ValueOf(rv.Interface()))
+					rv = newRv
+				} else if b < 0 && op > 0 && rv.CanAddr() && k != reflect.Interface {
+					// The value of a variable in an indirect register refers
+					// to the variable: the destination gets the value it
+					// holds now.
+					newRv := reflect.New(rv.Type()).Elem()
+					newRv.Set(rv)
 					rv = newRv
 				}
 				vm.setGeneral(c, rv)
